@@ -913,3 +913,63 @@ M("C02-local-fitness-negated", "C02", LOC, "        ind.fitness = self._sign * i
 T("C02-t-copy-method", "C02", POP, "        new_genomes = np.copy(self.genomes)\n        new_fitnesses = np.copy(self.fitnesses)", "        new_genomes = self.genomes.copy()\n        new_fitnesses = self.fitnesses.copy()", "ndarray.copy() instead of np.copy")
 T("C02-t-tournament-local", "C02", SEA, "        return Population(new_genomes, population_copy.fitnesses[winners], population_copy.problem)", "        new_fitnesses = population_copy.fitnesses[winners]\n        return Population(new_genomes, new_fitnesses, population_copy.problem)", "fitness through a local")
 T("C02-t-callback-array", "C02", LOC, "        ind = Individual(np.copy(intermediate_result.x), problem=self._problem)", "        ind = Individual(np.array(intermediate_result.x), problem=self._problem)", "np.array copy")
+
+# ----------------------------------------------------------------------------- C01
+M("C01-gauss-no-repair", "C01", SEA, '        new_genomes = apply_bounds(new_genomes, population.problem.bounds, method="toroidal")\n', "", ["R01.1"], "Gaussian mutation without repair")
+M("C01-gauss-repair-conditional", "C01", SEA, '        new_genomes = apply_bounds(new_genomes, population.problem.bounds, method="toroidal")\n', '        if self.probability < 1.0:\n            new_genomes = apply_bounds(new_genomes, population.problem.bounds, method="toroidal")\n', ["R01.1"], "repair skipped when every gene is mutated")
+M("C01-binary-no-repair", "C01", DEPY, '''        donor = randoms[:, 0] + self.f * (randoms[:, 1] - randoms[:, 2])
+        new_genomes = apply_bounds(donor, population.problem.bounds, "reflect")''', '''        donor = randoms[:, 0] + self.f * (randoms[:, 1] - randoms[:, 2])
+        new_genomes = donor''', ["R01.1"], "DE donors not repaired")
+M("C01-pbest-foreign-bounds", "C01", DEPY, '        new_genomes = apply_bounds(mutated_genomes, population.problem.bounds, "reflect")', '        new_genomes = apply_bounds(mutated_genomes, np.array([[-1.0, 1.0]] * population.genomes.shape[1]), "reflect")', ["R01.1"], "SHADE donors repaired into a fixed unit box")
+M("C01-uniform-widened", "C01", SEA, '''        new_genomes = np.random.uniform(
+            self.lower_bounds,
+            self.upper_bounds,''', '''        new_genomes = np.random.uniform(
+            self.lower_bounds,
+            self.upper_bounds * 1.05,''', ["R01.1"], "uniform mutation range widened by 5%")
+M("C01-uniform-swapped-cols", "C01", SEA, '''class UniformMutation(VariationalOperator):
+    def __init__(self, bounds: np.ndarray, probability: float) -> None:
+        self.lower_bounds = bounds[:, 0]
+        self.upper_bounds = bounds[:, 1]''', '''class UniformMutation(VariationalOperator):
+    def __init__(self, bounds: np.ndarray, probability: float) -> None:
+        self.lower_bounds = bounds[:, 0]
+        self.upper_bounds = bounds[:, 0] + 2 * (bounds[:, 1] - bounds[:, 0])''', ["R01.1"], "upper sampling limit beyond the box")
+M("C01-crossover-extrapolates", "C01", SEA, "                alpha = np.random.rand()\n", "                alpha = np.random.rand() * 1.5 - 0.25\n", ["R01.1"], "arithmetic crossover weight outside [0, 1]")
+M("C01-crossover-post-jitter", "C01", DEPY, "        new_genomes = np.where(chosen <= probability, mutated_population.genomes, population.genomes)\n", "        new_genomes = np.where(chosen <= probability, mutated_population.genomes, population.genomes)\n        new_genomes = new_genomes + 1e-12 * (chosen - 0.5)\n", ["R01.1"], "tie-breaking jitter added after the repair")
+M("C01-inbounds-or", "C01", INIT, "            return np.all(x >= bounds[:, 0]) and np.all(x <= bounds[:, 1])", "            return np.all(x >= bounds[:, 0]) or np.all(x <= bounds[:, 1])", ["R01.3"], "in_bounds with `or`")
+M("C01-inbounds-one-face", "C01", INIT, "            return np.all(x >= bounds[:, 0]) and np.all(x <= bounds[:, 1])", "            return np.all(x >= bounds[:, 0])", ["R01.3"], "in_bounds checks the lower face only")
+M("C01-inbounds-any", "C01", INIT, "            return np.all(x >= bounds[:, 0]) and np.all(x <= bounds[:, 1])", "            return np.all(x >= bounds[:, 0]) and np.any(x <= bounds[:, 1])", ["R01.3"], "upper face checked for some coordinate only")
+M("C01-rejection-capped", "C01", INIT, '''        x = sample()
+        while not in_bounds(x):
+            x = sample()
+
+        return x''', '''        x = sample()
+        tries = 0
+        while not in_bounds(x):
+            x = sample()
+            tries += 1
+            if tries > 1000:
+                break
+
+        return x''', ["R01.3"], "rejection sampling gives up and returns an outside point")
+M("C01-normal-unbounded", "C01", SH, "                initialize=sample_normal(x0, self._sample_std_dev, bounds=self._bounds),", "                initialize=sample_normal(x0, self._sample_std_dev),", ["R01.2"], "SHADE children sampled without bounds")
+M("C01-cma-no-bounds", "C01", CMA, '        opts = {"bounds": [lb, ub], "verbose": -9}', '        opts = {"verbose": -9}', ["R01.2"], "CMA-ES without bounds")
+M("C01-cma-bounds-swapped", "C01", CMA, '        opts = {"bounds": [lb, ub], "verbose": -9}', '        opts = {"bounds": [ub, lb], "verbose": -9}', ["R01.2"], "CMA-ES bounds [upper, lower]")
+M("C01-scipy-no-bounds", "C01", LOC, "            bounds=self._bounds,\n", "", ["R01.2"], "local search without bounds")
+M("C01-lhs-scaling", "C01", LHS, "        genomes = self.lower_bounds + sample * (self.upper_bounds - self.lower_bounds)", "        genomes = self.lower_bounds + sample * self.upper_bounds", ["R01.2"], "LHS sample scaled by upper instead of the range")
+M("C01-sobol-cols", "C01", SOB, "        self.upper_bounds = config.bounds[:, 1]", "        self.upper_bounds = config.bounds[:, 1] + 1.0", ["R01.2"], "Sobol upper limit shifted")
+M("C01-unhandled-method", "C01", DEPY, '        new_genomes = apply_bounds(donor, population.problem.bounds, "reflect")\n        new_fitness = np.where(\n            np.all(new_genomes == population.genomes, axis=1),\n            population.fitnesses,\n            np.nan,\n        )\n        return Population(new_genomes, new_fitness, population.problem)\n\n\nclass BinaryMutationWithDither', '        new_genomes = apply_bounds(donor, population.problem.bounds, "mirror")\n        new_fitness = np.where(\n            np.all(new_genomes == population.genomes, axis=1),\n            population.fitnesses,\n            np.nan,\n        )\n        return Population(new_genomes, new_fitness, population.problem)\n\n\nclass BinaryMutationWithDither', ["R01.5", "R01.1"], "repair method name not handled")
+M("C01-else-returns", "C01", COMMON, '''    else:
+        raise ValueError(f"Unknown method: {method}")''', '''    else:
+        return genomes''', ["R01.5"], "unknown repair method returns genomes unrepaired")
+M("C01-deme-bounds-widened", "C01", ABS, "        self._bounds: np.ndarray = deme_init_args.config.bounds", "        self._bounds: np.ndarray = deme_init_args.config.bounds * 1.0 + np.array([-1e-9, 1e-9])", ["R01.4"], "deme bounds padded")
+T("C01-t-gauss-clip", "C01", SEA, '        new_genomes = apply_bounds(new_genomes, population.problem.bounds, method="toroidal")', '        new_genomes = apply_bounds(new_genomes, population.problem.bounds, method="clip")', "another handled repair method")
+T("C01-t-gauss-two-steps", "C01", SEA, '''        new_genomes = new_population.genomes + binary_mask * noise
+        # By default we use toroidal method, because it works the best for BBOB.
+        new_genomes = apply_bounds(new_genomes, population.problem.bounds, method="toroidal")''', '''        raw_genomes = new_population.genomes + binary_mask * noise
+        # By default we use toroidal method, because it works the best for BBOB.
+        new_genomes = apply_bounds(raw_genomes, population.problem.bounds, method="toroidal")''', "unrepaired array under its own name")
+T("C01-t-crossover-beta", "C01", SEA, '''                alpha = np.random.rand()
+                new_genomes[i] = alpha * genomes[i] + (1 - alpha) * genomes[i + 1]
+                new_genomes[i + 1] = (1 - alpha) * genomes[i] + alpha * genomes[i + 1]''', '''                weight = np.random.rand()
+                new_genomes[i] = weight * genomes[i] + (1 - weight) * genomes[i + 1]
+                new_genomes[i + 1] = genomes[i] * (1 - weight) + genomes[i + 1] * weight''', "renamed weight, operands commuted")
